@@ -57,10 +57,15 @@ func FaultCheck(c Node, focus string) Verdict {
 	}
 	baseSig := append(Features(q), "pos:"+c["fam"].(string))
 	v := Verdict{OK: true, Sig: baseSig}
-	for _, wrapped := range []bool{false, true} {
+	for variant := 0; variant < 3; variant++ {
+		wrapped := variant == 1
 		st, opts, sig := Style{}, []string{}, baseSig
 		if wrapped {
 			st, opts, sig = Style{Root: true}, []string{"wrapped"}, append(append([]string{}, baseSig...), "wrapped")
+		}
+		if variant == 2 {
+			// with a handler for unreported errors installed: a failure of a synchronous step is still a failure
+			opts, sig = []string{"errhandler"}, append(append([]string{}, baseSig...), "errhandler")
 		}
 		sql := st.Query(q)
 		if v.SQL == "" {
